@@ -4,7 +4,7 @@ import json, os, subprocess, sys
 
 MAP = {
  "C01": ["C01", "C18", "C11", "C17"], "C02": ["C02", "C08", "C06", "C05", "C01", "C12", "C11"], "C03": ["C03", "C11", "C13", "C12", "C09", "C08"], "C04": ["C04", "C13", "C18", "C01"],
- "C05": ["C05", "C06", "C03", "C01", "C02", "C11"], "C06": ["C06", "C05", "C08", "C02"],
+ "C05": ["C05", "C06", "C03", "C01", "C02", "C11"], "C06": ["C06", "C04", "C05", "C08", "C02"],
  "C07": ["C07", "C02", "C04", "C18", "C12", "C11"], "C08": ["C08", "C03", "C05", "C02"], "C09": ["C09", "C13", "C12"], "C10": ["C10", "C13", "C04", "C01"], "C11": ["C11", "C13", "C12", "C15"],
  "C12": ["C12", "C11", "C13", "C10"], "C13": ["C13", "C11", "C09", "C07", "C18"], "C14": ["C14", "C13", "C12", "C17", "C10"], "C15": ["C15", "C03", "C17", "C08"], "C16": ["C16", "C02"],
  "C17": ["C17", "C03", "C04"], "C18": ["C18", "C01", "C13", "C19"], "C19": ["C19"],
